@@ -95,6 +95,12 @@ pub struct ExecOpts {
     pub inspect: bool,
     /// count key comparisons per lookup at quiescence (C06)
     pub lookup_cost: bool,
+    /// run the tree-bin validator after every k-th operation of every thread, on every tree
+    /// bin whose lock is free at that instant (C06 as a run-time invariant)
+    pub midrun_every: Option<u32>,
+    /// after the quiescent checks, keep inserting fresh keys until the table has grown once more
+    /// (C10: "later growth still works")
+    pub post_growth: bool,
 }
 
 impl Default for ExecOpts {
@@ -104,6 +110,8 @@ impl Default for ExecOpts {
             log_reads: false,
             inspect: true,
             lookup_cost: false,
+            midrun_every: None,
+            post_growth: false,
         }
     }
 }
@@ -122,6 +130,8 @@ pub struct Quiescent {
     /// (key, present?, comparisons used by get) for the C06 oracle
     pub lookup_cost: Vec<(u32, bool, u64)>,
     pub errors: Vec<String>,
+    /// (table length before, table length after, inserts needed, size_ctl after) of the post-run growth probe
+    pub post_growth: Option<(usize, usize, usize, isize)>,
 }
 
 pub struct RunResult {
@@ -145,6 +155,9 @@ pub struct RunResult {
     pub initial: Vec<(u32, Option<(u32, u32)>)>,
     /// table length after pre-population (0 = not allocated)
     pub initial_table_len: usize,
+    /// tree-bin validation errors found while the run was in progress, and how often it ran
+    pub midrun_errors: Vec<String>,
+    pub midrun_checks: u64,
 }
 
 pub enum Tgt {
@@ -183,6 +196,32 @@ struct Shared<'a> {
     tgt: &'a Tgt,
     callbacks: &'a AtomicU64,
     panic_at: Option<u64>,
+    midrun_every: Option<u32>,
+    hash: HashKind,
+    midrun: &'a Mutex<(Vec<String>, u64)>,
+}
+
+fn midrun_inspect(sh: &Shared<'_>, thread: u8, after_op: usize) {
+    let _q = sched::quiet();
+    let errs = match sh.tgt {
+        Tgt::Map(m) => {
+            let g = m.guard();
+            let d = m.verif_dump(&g);
+            crate::inspect::midrun_tree_errors(&d, sh.hash)
+        }
+        Tgt::Set(s) => {
+            let g = s.guard();
+            let d = s.verif_map().verif_dump(&g);
+            crate::inspect::midrun_tree_errors(&d, sh.hash)
+        }
+    };
+    let mut mr = sh.midrun.lock().unwrap();
+    mr.1 += 1;
+    for e in errs {
+        if mr.0.len() < 4 {
+            mr.0.push(format!("at clock {} (after op{} of t{}, other operations in flight): {}", sched::now(), after_op, thread, e));
+        }
+    }
 }
 
 struct Ctx<'a> {
@@ -829,6 +868,17 @@ fn quiescent(tgt: &Tgt, p: &Program, opts: &ExecOpts) -> Quiescent {
             if opts.inspect {
                 q.inspect = Some(crate::inspect::inspect_map(m, &g, p.cfg.hash));
             }
+            if opts.post_growth {
+                let len0 = m.verif_table_len();
+                let mut n = 0usize;
+                let limit = 2 * len0.max(16) + 32;
+                while m.verif_table_len() == len0 && n < limit {
+                    m.insert(Key::new(10_000_000 + n as u32), Val::new(20_000_000 + n as u32), &g);
+                    n += 1;
+                }
+                let d = m.verif_dump(&g);
+                q.post_growth = Some((len0, m.verif_table_len(), n, d.size_ctl));
+            }
         }
         Tgt::Set(s) => {
             let g = s.guard();
@@ -896,10 +946,14 @@ pub fn execute(p: &Program, mut setup: RunSetup, opts: &ExecOpts) -> RunResult {
         Tgt::Set(s) => s.verif_map().verif_table_len(),
     };
     let callbacks = AtomicU64::new(0);
+    let midrun = Mutex::new((Vec::new(), 0u64));
     let shared = Shared {
         tgt: &tgt,
         callbacks: &callbacks,
         panic_at: opts.panic_at,
+        midrun_every: opts.midrun_every,
+        hash: p.cfg.hash,
+        midrun: &midrun,
     };
     let n = p.threads.len();
     let outs: Vec<Mutex<Option<(Vec<OpRec>, Vec<GuardInterval>, Vec<String>, u64)>>> = (0..n).map(|_| Mutex::new(None)).collect();
@@ -953,6 +1007,11 @@ pub fn execute(p: &Program, mut setup: RunSetup, opts: &ExecOpts) -> RunResult {
                     }
                 };
                 hist.push(OpRec { thread: ti as u8, idx: i as u16, op: op.clone(), inv, ret, res, new_kinst: ctx.new_kinst });
+                if let Some(k) = sh.midrun_every {
+                    if (i as u32 + ti as u32) % k.max(1) == 0 {
+                        midrun_inspect(sh, ti as u8, i);
+                    }
+                }
             }
             release_guard(&mut ctx, "end of thread");
             *out.lock().unwrap() = Some((hist, ctx.intervals, ctx.errors, ctx.refs_checked));
@@ -998,6 +1057,8 @@ pub fn execute(p: &Program, mut setup: RunSetup, opts: &ExecOpts) -> RunResult {
             teardown_panic: None,
             initial,
             initial_table_len,
+            midrun_errors: Vec::new(),
+            midrun_checks: 0,
         };
     }
 
@@ -1015,6 +1076,7 @@ pub fn execute(p: &Program, mut setup: RunSetup, opts: &ExecOpts) -> RunResult {
         teardown_panic = Some(format!("dropping the map panicked: {}", panic_msg(e)));
     }
     let alloc_rep = alloc::end();
+    let mr = midrun.lock().unwrap().clone();
     let l = LEDGER.lock().unwrap();
     RunResult {
         history,
@@ -1033,5 +1095,7 @@ pub fn execute(p: &Program, mut setup: RunSetup, opts: &ExecOpts) -> RunResult {
         teardown_panic,
         initial,
         initial_table_len,
+        midrun_errors: mr.0,
+        midrun_checks: mr.1,
     }
 }
